@@ -138,6 +138,13 @@ def block_case(draw, name):
     zero_x = draw(st.integers(0, 9)) == 0
     x = [0.] * d if zero_x else draw(st.lists(gen.real(-2, 1, zero=.2), min_size=d, max_size=d))
     case = dict(kind="block", which=name, step=step, x=x)
+    if name != "SLOPE" and draw(st.integers(0, 7)) == 0:
+        # extreme scales (see scalar_case); alpha carries the factor so that the MCP/SCAD step range holds
+        k = draw(st.integers(3, 18)) * draw(st.sampled_from([1, 1, -1]))
+        alpha = float(alpha * 10. ** k)
+        xs = draw(st.sampled_from([1., 10. ** k, 10. ** (k / 2)]))
+        case["x"] = x = [float(v * xs) for v in x]
+        case["extreme"] = True
     if name in ("WeightedGroupL2", "WeightedGroupL2+"):
         # one group of interest (index 1) among three, non-contiguous indices
         groups = [[0], list(range(2, 2 + d)), [1]]
@@ -350,6 +357,8 @@ def check_block(case):
     which, s = case["which"], case["step"]
     x = np.array(case["x"], float)
     classes = [which, "x=0" if not x.any() else ("at-threshold" if case.get("at_threshold") else "generic")]
+    if case.get("extreme"):
+        classes.append("extreme-scale")
     sig = dict(site="block-prox", penalty=which)
     extra = []
     if which == "BST_vec":
